@@ -3,7 +3,7 @@
 import json, os, sys, subprocess
 VERIF = os.path.dirname(os.path.dirname(os.path.abspath(__file__)))
 sys.path.insert(0, os.path.join(VERIF, 'bin'))
-from props import PROPS, NOT_APPLICABLE, LEVEL_TEXT  # noqa
+from props import PROPS, NOT_APPLICABLE, LEVEL_TEXT, ENGINES  # noqa
 
 hook_commits = []
 try:
@@ -39,7 +39,7 @@ m = {
     'engines': [
         {'name': 'coord', 'path': 'harness/cmd/kvh/coord.go', 'serves_properties': [p for p in sorted(PROPS) if PROPS[p]['engine'] == 'coord'],
          'kind_free_text': 'one cycle of the real Coordinator against scripted shards; outcomes matched against Coord.cycle through a schedule search in the Lean driver'},
-    ],
+    ] + [dict(e, serves_properties=[p for p in sorted(PROPS) if PROPS[p]['engine'] == e['name']]) for e in ENGINES if any(PROPS[p]['engine'] == e['name'] for p in PROPS)],
     'checks': checks,
     'not_applicable': [{'property_id': k, 'reason': v} for k, v in sorted(NOT_APPLICABLE.items()) if k not in PROPS],
     'notes': 'All checks share bin/check; see DESIGN.md. Lean model and theorems under lean/, extractor under extract/, harness under harness/.',
